@@ -745,6 +745,8 @@ static inline float ir_bits2f(u32 x) { union { u32 i; float d; } u; u.i = x; ret
 static inline u32 ir_f2bits(float x) { union { u32 i; float d; } u; u.d = x; return u.i; }
 static u64 ir_alloc_max; static u64 ir_alloc_sum; static u64 ir_alloc_count;
 u32 verif_stub_hits;
+static void ir_smallmove(u8 *d, const u8 *s, u64 n) { u8 t[8]; u64 i; if(n == 0) return; if(n > 8) { memmove((void*)d, (const void*)s, (size_t)n); return; }
+  for(i = 0; i < 8; i++) { if(i < n) t[i] = s[i]; } for(i = 0; i < 8; i++) { if(i < n) d[i] = t[i]; } }
 static u8 *ir_new(u64 n) { u8 *p; ir_alloc_count++; ir_alloc_sum += n; if(n > ir_alloc_max) ir_alloc_max = n; p = (u8 *)malloc(n); IR_ASSUME(p != 0); return p; }
 static void ir_delete(void *p) { free(p); }
 static void ir_throw(void) { IR_ASSERT(0, "C++ exception thrown (__cxa_throw reached)"); IR_ASSUME(0); }
@@ -1008,6 +1010,14 @@ class FuncEmitter(object):
                 else:
                     self.decl.append('  %s %s;' % (E.ct(ins.t), an))
                     self.assign(ins, PTR(ins.t), '&' + an)
+                    if ins.t.k == 'int' and agg is not None and agg.k == 'struct':
+                        # SROA turned a small by-value struct (e.g. OpnChannel::Location: u16, u8, 1 padding byte) into ONE
+                        # integer slot that is written field-wise through narrower pointers and read back whole.  With an
+                        # arbitrary initial value CBMC keeps byte_update(byte_update(nondet,..)..) terms that its simplifier
+                        # cannot fold, every comparison of two copies becomes symbolic and list searches return if-then-else
+                        # pointers.  The bytes no store covers (padding) are therefore zero instead of arbitrary; a read of a
+                        # never-written FIELD of such a slot would be hidden by this (stated in DESIGN.md section 3).
+                        self.w('%s = 0;' % an, ins.dbg)
         elif op == 'phi':
             self.declare(ins.dst, ins.t)
         elif op == 'select':
@@ -1149,6 +1159,9 @@ class FuncEmitter(object):
                     done = True
                 elif fnm == 'memset':
                     self.w('if (%s != 0) memset((void*)%s, (int)%s, (size_t)%s);' % (n, A[0], A[1], n), ins.dbg)
+                elif E.o.get('small_memmove'):
+                    # byte-wise copy for short runs: CBMC's memcpy/memmove model loses the concrete bytes of small arrays
+                    self.w('ir_smallmove((u8*)%s, (const u8*)%s, (u64)%s);' % (A[0], A[1], n), ins.dbg)
                 else:
                     self.w('if (%s != 0) %s((void*)%s, (const void*)%s, (size_t)%s);' % (n, fnm, A[0], A[1], n), ins.dbg)
                 done = True
@@ -1256,6 +1269,8 @@ class FuncEmitter(object):
                     cargs.append(s)
             cname_ = {'exp': 'ir_exp', 'log': 'ir_log', 'sin': 'ir_sin', 'pow': 'ir_pow', 'sqrt': 'ir_sqrt', 'exp2': 'ir_exp2'}.get(name, name)
             expr = '%s(%s)' % (cname_, ', '.join(cargs))
+            if name in ('memmove', 'memcpy') and E.o.get('small_memmove') and len(A) == 3:
+                expr = '(ir_smallmove((u8*)%s, (const u8*)%s, (u64)%s), (u8*)%s)' % (A[0], A[1], A[2], A[0])
             if name == 'malloc' and ins.dst is not None and args[0].k == 'int':
                 ty = self.first_cast.get(ins.dst)
                 sz = E.sizeof(ty) if ty is not None and ty.k not in ('void', 'func', 'opaque') else None
